@@ -33,6 +33,23 @@ def main():
                 rows.append([i, ce, mo, float(v).hex()])
             r["rows"] = rows
             r["secs"] = float(secs).hex()
+            if c.get("cum"):
+                cum = inv.cumulative_decays(t, c["tunit"])
+                n0b, ind_b, Eb = inv._setup_decay_calc()
+                lamf = sd.decay_consts
+                rad = [int(x) for x in ind_b if lamf[x] > 0.0]
+                for x in rad:
+                    Eb[x, x] = (1.0 - np.exp(-secs * lamf[x])) / lamf[x]
+                CEb = sd.matrix_c @ Eb
+                Mb = CEb @ sd.matrix_c_inv
+                r["e_cum"] = [[k, float(Eb.data[k]).hex()] for k in sorted(rad)]
+                rows = []
+                for name, v in cum.items():
+                    i = int(D.nuclide_dict[name])
+                    ce = [int(x) for x in CEb.indices[CEb.indptr[i]:CEb.indptr[i + 1]]]
+                    mo = [int(x) for x in Mb.indices[Mb.indptr[i]:Mb.indptr[i + 1]]]
+                    rows.append([i, ce, mo, float(lamf[i]).hex(), float(v).hex()])
+                r["rows_cum"] = rows
         except Exception as ex:
             r["err"] = type(ex).__name__ + ": " + str(ex)[:100]
         out.append(r)
